@@ -1,11 +1,12 @@
 ENTRY = dict(
     gen=["parrots"],
-    runner="C13", pkg="./cmd/c13", corr=["Corr.C13Corr"], n=dict(quick=1090, thorough=3700), runner_timeout=900,
+    runner="C13", pkg="./cmd/c13", corr=["Corr.C13Corr"], n=dict(quick=1290, thorough=3100), runner_timeout=900,
     rule="every predefined parrot, 11 custom clients (TLSVersMax 1.2 under a supported_versions list {1.3,1.2}; lists with a hole {1.2,1.0}, "
          "{GREASE,1.3,1.1}, {1.3,1.0}; no supported_versions extension with TLSVersMin raised to 1.2 / 1.1; a 1.3 parrot stripped of the "
          "extension with TLSVersMax 1.2, with TLSVersMax left at 1.3 (min 1.2 and min 1.0), and built Firefox_105 / Chrome_120 UConns whose "
          "SupportedVersionsExtension is removed from uc.Extensions after BuildHandshakeState) and caller-side Config variations (MinVersion/MaxVersion pre-set wider 1.0..1.3 or narrower 1.2..1.2 than the spec, one "
-         "*Config reused after a Firefox_102 UConn) over loopback TCP against scripted servers: honest Go servers with MaxVersion "
+         "*Config reused after a Firefox_102 UConn; HelloGolang via UClient and 4 parrots whose shared, uncloned *Config is widened BETWEEN the "
+         "explicit BuildHandshakeState and the handshake by a sibling UConn of Chrome_58 / Firefox_102 or by the caller setting MinVersion 1.0) over loopback TCP against scripted servers: honest Go servers with MaxVersion "
          "1.0/1.1/1.2/1.3; legacy servers negotiating from legacy_version only with MaxVersion 1.0/1.1/1.2; servers forcing 1.0/1.1/1.2 with the "
          "RFC 8446 sentinel set by the library's rule / omitted / forced DOWNGRD\\x01 / forced DOWNGRD\\x00; forced 1.3 (client material "
          "fabricated when the hello did not offer it); TLS 1.3 named in the legacy version field; supported_versions in the ServerHello naming "
